@@ -25,6 +25,28 @@ namespace Kanidm.PwFormat
 open Kanidm.Gen.PwFormat
 set_option linter.unusedSimpArgs false
 
+/-- The format definitions, written by hand from the producers' documentation (RFC 2307 / 389-DS
+`{SHA}`…`{SSHA512}` = digest ‖ salt with the digest sizes of FIPS 180; passlib `ldap_pbkdf2_*`:
+`{PBKDF2}` = `{PBKDF2-SHA1}`; crypt(3) ids 1 / 5 / 6; Django `pbkdf2_sha256$`; FreeIPA `ipaNTHash`,
+Samba `sambaNTPassword`). The tables regenerated from the source must be these. -/
+theorem import_tables_are_spec :
+    prefixTable.map (fun e => (String.ofList e.1, e.2)) =
+      [("pbkdf2_sha256$", false, .parse_django_password), ("ipaNTHash: ", true, .parse_ipanthash),
+       ("sambaNTPassword: ", true, .parse_sambantpassword), ("{", false, .braced)] ∧
+    tagTable.map (fun e => (String.ofList e.1, e.2)) =
+      [("pbkdf2", .pbkdf2), ("pbkdf2-sha1", .pbkdf2), ("pbkdf2-sha256", .pbkdf2), ("pbkdf2-sha512", .pbkdf2),
+       ("pbkdf2_sha256", .invalidFormat), ("argon2", .argon), ("crypt", .crypt),
+       ("sha", .ds 20 .SHA1), ("ssha", .dss 20 false .SSHA1),
+       ("sha256", .ds 32 .SHA256), ("ssha256", .dss 32 false .SSHA256),
+       ("sha512", .ds 64 .SHA512), ("ssha512", .dss 64 true .SSHA512)] ∧
+    pbkdf2Table.map (fun e => (String.ofList e.1, e.2)) =
+      [("pbkdf2", 19, .PBKDF2_SHA1), ("pbkdf2-sha1", 19, .PBKDF2_SHA1), ("pbkdf2-sha256", 32, .PBKDF2),
+       ("pbkdf2-sha512", 32, .PBKDF2_SHA512)] ∧
+    cryptTable.map (fun e => (String.ofList e.1, e.2)) =
+      [("$1$", .CRYPT_MD5), ("$5$", .CRYPT_SHA256), ("$6$", .CRYPT_SHA512)] ∧
+    (pwMaxLengthCheck, pbkdf2MinNistKeyLen, argon2Version) = (512, 32, 19) := by
+  decide
+
 theorem parse_braced (tag value : List Char) (hbr : '}' ∉ tag) :
     parse (renderBraced tag value) = parseTagged (lower tag) value := by
   have hbr' : '}' ∉ '{' :: tag := by
